@@ -26,7 +26,7 @@ for p in props:
     })
 man = {
     "version": 1,
-    "setup_cmd": "cd lean && lake build Model Proofs Props driver",
+    "setup_cmd": "cd lean && lake build",
     "hooks": {"guard": "PYAUTOARRAY_VERIF", "enable": "no source hooks: the harness reaches the code through its public API; ./check exports PYAUTOARRAY_VERIF=1 and PYTHONPATH=/repo", "baseline_off_cmd": BASE_CMD.replace(" --junitxml=<file>", ""), "source_commits": [], "add_only": True},
     "engines": [{"name": "lean4-model+correspondence", "path": "lean/ + harness/", "serves_properties": [c["property_id"] for c in checks], "kind_free_text": "Lean 4.33 model (Model/*.lean) + theorems (Props/*.lean, Proofs/*.lean) + compiled JSON-lines driver; Python harness runs real code and model on the same inputs and diffs"}],
     "checks": checks,
